@@ -1,5 +1,6 @@
 import Props.C13
 import Props.C13b
+import Props.C13c
 #print axioms C13.codes_valid
 #print axioms C13.rgbToYuv_total
 #print axioms C13.yuvToRgb_total
@@ -9,3 +10,4 @@ import Props.C13b
 #print axioms C18.exp2_total
 #print axioms C18.curve_total
 #print axioms C13.curves_finite
+#print axioms C13.rgbToLinear_finite
